@@ -109,7 +109,7 @@ type Layer struct {
 
 type Push struct {
 	Layers  []Layer `json:"layers,omitempty"` // kind M
-	Kind    string  `json:"kind"` // B | U | M (image manifest with named layers; judged by the oracle only)
+	Kind    string  `json:"kind"` // B | U | M (unnamed image manifest with named layers: restoreDuplicates)
 	Title   string  `json:"title"`
 	Tag     int     `json:"tag,omitempty"`
 	Entries []Entry `json:"entries,omitempty"`
@@ -456,11 +456,6 @@ func modelLine(c Case, cfg string) string {
 	if c.Wd == "link" || c.Wd == "via" {
 		return "X" // working directory behind / being a symbolic link: judged by the oracle only
 	}
-	for _, p := range c.Pushes {
-		if p.Kind == "M" {
-			return "X" // manifests (restoreDuplicates) are not modelled: judged by the oracle only
-		}
-	}
 	var sb strings.Builder
 	pres := 0
 	if c.Preserve {
@@ -489,6 +484,13 @@ func modelLine(c Case, cfg string) string {
 	for _, p := range c.Pushes {
 		if p.Kind == "B" {
 			fmt.Fprintf(&sb, " B %s %d", common.Hex(p.Title), p.Tag)
+			continue
+		}
+		if p.Kind == "M" {
+			fmt.Fprintf(&sb, " M %d", len(p.Layers))
+			for _, l := range p.Layers {
+				fmt.Fprintf(&sb, " %s %d", common.Hex(l.Title), l.Tag)
+			}
 			continue
 		}
 		fmt.Fprintf(&sb, " U %s %d", common.Hex(p.Title), len(p.Entries))
@@ -687,7 +689,7 @@ func runCase(c Case) {
 		run.Count("origin=" + c.Origin)
 	}
 	if hasManifest {
-		run.Count("unjudged-by-model(manifest)")
+		run.Count("manifest-cases")
 	}
 	if c.Wd != "" {
 		run.Count("wd=" + c.Wd)
@@ -1006,7 +1008,7 @@ func genTemplate(r *common.Rand) Case {
 	c := Case{Prep: basePrep(), Preserve: r.Chance(1, 4)}
 	t := common.Pick(r, []string{"t", "a", "k", "t/b"})
 	fin := common.Pick(r, []string{"victim", "a", "x/victim", "k"})
-	switch k := r.Intn(23); k {
+	switch k := r.Intn(24); k {
 	case 0: // raw link target goes through an earlier link and climbs
 		c.Origin = "tpl-raw-target"
 		d := 1 + r.Intn(3)
@@ -1150,13 +1152,32 @@ func genTemplate(r *common.Rand) Case {
 				{Kind: "B", Title: P + "/" + leaf, Tag: 26}}
 		}
 		c.Pushes = append(append(p1, p2...), p3...)
-	case 17: // manifest whose named layers are restored from content the store already holds
+	case 17, 22: // manifest whose named layers are restored from content the store already holds
 		c.Origin = "tpl-manifest-layers"
 		titles := []string{pickSeg(r), "m/" + pickSeg(r), "../victim", "../wd-old/victim.txt", s3Dir + "/victim", "a/../../x/victim", wdDir + "/ok"}
 		common.Shuffle(r, titles)
 		c.Pushes = []Push{{Kind: "B", Title: "", Tag: 41}, {Kind: "B", Title: "", Tag: 42},
 			{Kind: "M", Layers: []Layer{{Title: titles[0], Tag: 41}, {Title: titles[1], Tag: 42}, {Title: titles[2], Tag: 43}}}}
-		if r.Bool() {
+		switch r.Intn(4) {
+		case 0:
+			// content held in a named file: restored from that file as it is now
+			if r.Chance(2, 3) {
+				titles[0], titles[1] = "r1", "m/r2"
+			}
+			c.Pushes = []Push{{Kind: "B", Title: "n1", Tag: 51}, {Kind: "B", Title: "d/n2", Tag: 52},
+				{Kind: "M", Layers: []Layer{{Title: titles[0], Tag: 51}, {Title: "n1", Tag: 51}, {Title: titles[1], Tag: 52}, {Title: "copy", Tag: 52}}},
+				{Kind: "M", Layers: []Layer{{Title: titles[0], Tag: 51}, {Title: "n1", Tag: 51}, {Title: titles[1], Tag: 52}, {Title: "copy", Tag: 52}}},
+				{Kind: "M", Layers: []Layer{{Title: "copy2", Tag: 52}, {Title: "", Tag: 51}}}}
+		case 1:
+			// the file was replaced since (other content, a link, gone): mismatch / not found
+			c.Pushes = []Push{{Kind: "U", Title: "t", Entries: []Entry{{Kind: "d", Name: "t/b/b/b"}, {Kind: "s", Name: "t/b/b/b/s", Target: "../../.."}}},
+				{Kind: "B", Title: "t/n1", Tag: 51}, {Kind: "B", Title: "t/n2", Tag: 52}, {Kind: "B", Title: "t/n3", Tag: 53},
+				{Kind: "U", Title: "t/z", Entries: []Entry{{Kind: "h", Name: "t/z/h", Target: "../n1"}, {Kind: "r", Name: "t/z/h", Tag: 54}}},
+				{Kind: "U", Title: "t", Entries: []Entry{{Kind: "s", Name: "t/n2", Target: "b/b/b/s/../../victim"}, {Kind: "s", Name: "t/n3", Target: "gone"}}},
+				{Kind: "M", Layers: []Layer{{Title: "r3", Tag: 53}, {Title: titles[0], Tag: 52}, {Title: "r1", Tag: 51}, {Title: "never", Tag: 52}}}}
+			common.Shuffle(r, c.Pushes[6].Layers)
+		}
+		if len(c.Pushes) == 3 && r.Bool() {
 			// through a link planted earlier
 			c.Pushes = append([]Push{{Kind: "U", Title: "t", Entries: []Entry{{Kind: "d", Name: "t/b/b/b"},
 				{Kind: "s", Name: "t/b/b/b/s", Target: "../../.."}, {Kind: "s", Name: "t/l", Target: "b/b/b/s/../.."}}}}, c.Pushes...)
